@@ -732,4 +732,8 @@ def near_limits(rng, data, cfg):
         cfg.max_field = max(1, rng.choice(rest) + d2)
     if rng.random() < 0.25:
         cfg.max_headers = max(1, len(lines) + rng.choice([-2, -1, 0, 1]))
+    elif rng.random() < 0.2:
+        # the head's own line count (start line, fields, blank line): the trailer budget of a chunked body is what is left
+        head = data.split(b"\r\n\r\n")[0]
+        cfg.max_headers = max(1, head.count(b"\r\n") + 2 + rng.choice([-1, 0, 0, 1, 2]))
     return cfg
